@@ -2,10 +2,12 @@ package main
 
 import (
 	"encoding/binary"
+	"encoding/json"
 	"fmt"
 	"os"
 	"runtime"
 	"sync"
+	"time"
 
 	"github.com/MixinNetwork/mixin/common"
 	"github.com/MixinNetwork/mixin/crypto"
@@ -38,6 +40,7 @@ type fixture struct {
 	counter uint64             // distinct labels for derived keys
 	reuse   bool               // buildSignedTx leaves the UTXOs in the pool (see there)
 	unit    common.Integer
+	amount  common.Integer // amount of every funded output
 }
 
 func repoPath() string {
@@ -62,11 +65,12 @@ func newFixture(seed, mode string) (*fixture, error) {
 		return nil, err
 	}
 	f := &fixture{
-		dir:  dir,
-		seed: seed,
-		b:    b,
-		pool: make(map[int][]*utxoRef),
-		unit: common.NewIntegerFromString("0.00000001"),
+		dir:    dir,
+		seed:   seed,
+		b:      b,
+		pool:   make(map[int][]*utxoRef),
+		unit:   common.NewIntegerFromString("0.00000001"),
+		amount: common.NewIntegerFromString("0.00000001"),
 	}
 	switch mode {
 	case "relay":
@@ -146,7 +150,7 @@ func (f *fixture) fund(keysPerUTXO, count int, distinct bool) error {
 			}
 			out := &common.Output{
 				Type:   common.OutputTypeScript,
-				Amount: f.unit,
+				Amount: f.amount,
 				Script: common.NewThresholdScript(threshold),
 				Mask:   mask,
 				Keys:   pubs,
@@ -195,7 +199,7 @@ func (f *fixture) buildSignedTx(inputs, keysPerUTXO, extraLen int) (*common.Vers
 	key := f.deriveKey("spendkey", id).Public()
 	tx.Outputs = []*common.Output{{
 		Type:   common.OutputTypeScript,
-		Amount: f.unit.Mul(inputs),
+		Amount: f.amount.Mul(inputs),
 		Script: common.NewThresholdScript(1),
 		Mask:   mask,
 		Keys:   []*crypto.Key{&key},
@@ -315,4 +319,102 @@ func parseSent(data []byte) (*parsedMessage, error) {
 		return nil, fmt.Errorf("trailing bundle data %d", len(data))
 	}
 	return pm, nil
+}
+
+// buildStorageTx spends ONE funded 1-key output of 1 XIN into a storage output
+// (one key, script fffe40, 0.5 XIN: pays for the maximal extra) plus change,
+// with extraLen bytes of extra.  The unsigned payload is about extraLen bytes,
+// the single signature adds 66: a cheap transaction of up to the 4 MiB cap.
+func (f *fixture) buildStorageTx(extraLen int) (*common.VersionedTransaction, error) {
+	pool := f.pool[1]
+	if len(pool) < 1 {
+		return nil, fmt.Errorf("no 1-key UTXO funded")
+	}
+	in := pool[0]
+	id := f.next()
+	tx := common.NewTransactionV5(common.XINAssetId)
+	tx.AddInput(in.hash, in.index)
+	half := common.NewIntegerFromString("0.5")
+	sk := f.deriveKey("storagekey", id).Public()
+	ck := f.deriveKey("changekey", id).Public()
+	mask := f.deriveKey("storagemask", id).Public()
+	tx.Outputs = []*common.Output{
+		{Type: common.OutputTypeScript, Amount: half, Script: common.NewThresholdScript(64), Mask: mask, Keys: []*crypto.Key{&sk}},
+		{Type: common.OutputTypeScript, Amount: half, Script: common.NewThresholdScript(1), Mask: mask, Keys: []*crypto.Key{&ck}},
+	}
+	tx.Extra = make([]byte, extraLen)
+	for i := range tx.Extra {
+		tx.Extra[i] = byte(id*31 + uint64(i)*7)
+	}
+	ver := tx.AsVersioned()
+	msg := ver.PayloadHash()
+	sig := in.privs[0].Sign(msg)
+	ver.SignaturesMap = []map[uint16]*crypto.Signature{{0: &sig}}
+	return ver, nil
+}
+
+// newProposerFixture creates a node that is itself one of the seven nodes of a
+// genesis generated here (keys derived from seed, as `mixin setuptestnet`
+// does), with one relayer connected, and marks the peers' sync points known:
+// the node is in proposing state.
+func newProposerFixture(seed string) (*fixture, error) {
+	dir, err := os.MkdirTemp("", "c31-proposer-")
+	if err != nil {
+		return nil, err
+	}
+	account := func(label string, i int) common.Address {
+		h1 := crypto.Blake3Hash([]byte(fmt.Sprintf("%s|%s|%d", seed, label, i)))
+		h2 := crypto.Blake3Hash(h1[:])
+		a := common.NewAddressFromSeed(append(h1[:], h2[:]...))
+		a.PrivateViewKey = a.PublicSpendKey.DeterministicHashDerive()
+		a.PublicViewKey = a.PrivateViewKey.Public()
+		return a
+	}
+	var nodes []map[string]string
+	var signers []common.Address
+	for i := 0; i < 7; i++ {
+		sg := account("signer", i)
+		signers = append(signers, sg)
+		nodes = append(nodes, map[string]string{
+			"signer": sg.String(), "payee": account("payee", i).String(),
+			"custodian": account("custodian", i).String(), "balance": "13439",
+		})
+	}
+	genesis := map[string]any{
+		"epoch":     time.Now().Add(-30 * 24 * time.Hour).Unix(),
+		"nodes":     nodes,
+		"custodian": account("domain", 0).String(),
+	}
+	data, err := json.MarshalIndent(genesis, "", "  ")
+	if err != nil {
+		return nil, err
+	}
+	if err := os.WriteFile(dir+"/genesis.json", data, 0644); err != nil {
+		return nil, err
+	}
+	cfg := fmt.Sprintf(`[node]
+signer-key = "%s"
+consensus-only = true
+memory-cache-size = 16
+cache-ttl = 7200
+ring-cache-size = 4096
+ring-final-size = 16384
+[network]
+listener = "mixin-node.example.com:7239"`, signers[3].PrivateSpendKey.String())
+	b, err := kernel.VerifC31NewBatcherWithConfig(dir, dir+"/genesis.json", cfg)
+	if err != nil {
+		os.RemoveAll(dir)
+		return nil, err
+	}
+	f := &fixture{
+		dir:    dir,
+		seed:   seed,
+		b:      b,
+		pool:   make(map[int][]*utxoRef),
+		unit:   common.NewIntegerFromString("0.00000001"),
+		amount: common.NewIntegerFromString("0.00000001"),
+	}
+	b.AddRelayer(crypto.Blake3Hash([]byte(seed + "RELAYER")))
+	b.MarkPeersSynced()
+	return f, nil
 }
